@@ -9,10 +9,13 @@ def load_schema(ctx):
     return json.load(open(os.path.join(ctx.root, "work", "schema.json")))
 
 
-def patterns(r, L, exhaustive_upto, nrand):
+def patterns(r, L, exhaustive_upto, nrand, repo="/repo"):
     if L <= exhaustive_upto:
         return list(range(1 << L))
     s = {0, 1, 2, (1 << L) - 1, (1 << L) - 2, 1 << (L - 1), (1 << (L - 1)) - 1, (1 << (L - 1)) + 1}
+    for v in dict_ints(0, (1 << L) - 1, repo):
+        s.add(v)
+        s.add(((1 << L) - v) % (1 << L))      # the same magnitude, negative, in two's complement
     for k in range(L):
         s.add(1 << k)
         s.add(((1 << L) - 1) ^ (1 << k))
@@ -45,7 +48,7 @@ class C08(Prop):
         for i in sch["df_order"]:
             d = sch["dfs"][i]
             L = d["len"]
-            for p in patterns(r, L, 16 if thorough else 10, 4000 if thorough else 150):
+            for p in patterns(r, L, 16 if thorough else 10, 4000 if thorough else 150, ctx.repo):
                 yield (f"DFDEC {i} {L} {p}", "float" if d["dt"] in ("f32", "f64") else "int",
                        p != 0 and p != (1 << L) - 1)
 
@@ -122,6 +125,14 @@ class C11(Prop):
             bias = float(eval_expr(d["bias"])) if d["bias"] else 0.0
             lo, hi = self.signed_range(d)
             ks = {lo, lo + 1, hi, hi - 1, 0, 1, -1 if lo < 0 else 2, (lo + hi) // 2}
+            dd = dict_ints(0, max(hi, -lo), ctx.repo, 12 if not thorough else 80, r)
+            dd = dd + new_ints(0, max(hi, -lo), ctx.repo)
+            ks.update(v for v in dd if lo <= v <= hi)
+            ks.update(-v for v in dd if lo <= -v <= hi)
+            for p2 in range(10, d["len"]):
+                for v in ((1 << p2), (1 << p2) + 1, -(1 << p2)):     # powers of two: float precision steps
+                    if lo <= v <= hi:
+                        ks.add(v)
             for _ in range(40 if thorough else 6):
                 ks.add(r.randrange(lo, hi + 1))
             eps = 1e-3
